@@ -3,6 +3,7 @@
    numtraits).  Do not edit.  Proofs/GlueTieC*.v prove each definition equal to the hand-written model. *)
 From Bnum Require Import Base Prim.
 From Bnum.Model Require Import Digit Core Shift AddSub Mul Div Bits Pow.
+From Bnum.Model Require Ops Convert.
 
 Module Glue.
 
@@ -1110,5 +1111,1142 @@ Definition U_Shr_u128_shr (dbg : bool) (w : Z) (self : list Z) (rhs : Z) : outco
 
 Definition I_Shr_u128_shr (dbg : bool) (w : Z) (self : list Z) (rhs : Z) : outcome (list Z) :=
   obind (if dbg then (Core.option_expect (if andb (Z.leb 0 rhs) (Z.leb rhs u32_max) then Some rhs else None)) else (Ret (Z.modulo rhs (2 ^ 32)))) (fun (rhs : Z) => (Shift.I_shr dbg w self rhs)).
+
+(* ---- src/int/ops.rs: the impls produced by all_shift_impls!, assign_op_impl!, shift_assign_ops!, op_ref_impl!, shift_self_impl! inside impls! ---- *)
+Definition U_Shl_BUint_shl (dbg : bool) (w : Z) (self : list Z) (rhs : list Z) : outcome (list Z) :=
+  obind (Convert.U_try_to_prim dbg 32 false w rhs) (fun (r1 : Convert.result (Z)) => (obind (match r1 with Convert.Ok x => Ret x | Convert.Err => Panic end) (fun (rhs : Z) => (Shift.U_shl dbg w self rhs)))).
+
+Definition U_Shl_BUint_vr_shl (dbg : bool) (w : Z) (self : list Z) (rhs : list Z) : outcome (list Z) :=
+  U_Shl_BUint_shl dbg w self rhs.
+
+Definition U_Shl_BUint_rr_shl (dbg : bool) (w : Z) (self : list Z) (rhs : list Z) : outcome (list Z) :=
+  U_Shl_BUint_shl dbg w self rhs.
+
+Definition U_Shl_BUint_rv_shl (dbg : bool) (w : Z) (self : list Z) (rhs : list Z) : outcome (list Z) :=
+  U_Shl_BUint_shl dbg w self rhs.
+
+Definition U_ShlAssign_BUint_shl_assign (dbg : bool) (w : Z) (self : list Z) (rhs : list Z) : outcome (list Z) :=
+  U_Shl_BUint_shl dbg w self rhs.
+
+Definition U_ShlAssign_BUint_ref_shl_assign (dbg : bool) (w : Z) (self : list Z) (rhs : list Z) : outcome (list Z) :=
+  U_ShlAssign_BUint_shl_assign dbg w self rhs.
+
+Definition U_Shr_BUint_shr (dbg : bool) (w : Z) (self : list Z) (rhs : list Z) : outcome (list Z) :=
+  obind (Convert.U_try_to_prim dbg 32 false w rhs) (fun (r1 : Convert.result (Z)) => (obind (match r1 with Convert.Ok x => Ret x | Convert.Err => Panic end) (fun (rhs : Z) => (Shift.U_shr dbg w self rhs)))).
+
+Definition U_Shr_BUint_vr_shr (dbg : bool) (w : Z) (self : list Z) (rhs : list Z) : outcome (list Z) :=
+  U_Shr_BUint_shr dbg w self rhs.
+
+Definition U_Shr_BUint_rr_shr (dbg : bool) (w : Z) (self : list Z) (rhs : list Z) : outcome (list Z) :=
+  U_Shr_BUint_shr dbg w self rhs.
+
+Definition U_Shr_BUint_rv_shr (dbg : bool) (w : Z) (self : list Z) (rhs : list Z) : outcome (list Z) :=
+  U_Shr_BUint_shr dbg w self rhs.
+
+Definition U_ShrAssign_BUint_shr_assign (dbg : bool) (w : Z) (self : list Z) (rhs : list Z) : outcome (list Z) :=
+  U_Shr_BUint_shr dbg w self rhs.
+
+Definition U_ShrAssign_BUint_ref_shr_assign (dbg : bool) (w : Z) (self : list Z) (rhs : list Z) : outcome (list Z) :=
+  U_ShrAssign_BUint_shr_assign dbg w self rhs.
+
+Definition U_Shl_BInt_shl (dbg : bool) (w : Z) (self : list Z) (rhs : list Z) : outcome (list Z) :=
+  obind (Convert.I_try_to_uprim dbg 32 w rhs) (fun (r1 : Convert.result (Z)) => (obind (match r1 with Convert.Ok x => Ret x | Convert.Err => Panic end) (fun (rhs : Z) => (Shift.U_shl dbg w self rhs)))).
+
+Definition U_Shl_BInt_vr_shl (dbg : bool) (w : Z) (self : list Z) (rhs : list Z) : outcome (list Z) :=
+  U_Shl_BInt_shl dbg w self rhs.
+
+Definition U_Shl_BInt_rr_shl (dbg : bool) (w : Z) (self : list Z) (rhs : list Z) : outcome (list Z) :=
+  U_Shl_BInt_shl dbg w self rhs.
+
+Definition U_Shl_BInt_rv_shl (dbg : bool) (w : Z) (self : list Z) (rhs : list Z) : outcome (list Z) :=
+  U_Shl_BInt_shl dbg w self rhs.
+
+Definition U_ShlAssign_BInt_shl_assign (dbg : bool) (w : Z) (self : list Z) (rhs : list Z) : outcome (list Z) :=
+  U_Shl_BInt_shl dbg w self rhs.
+
+Definition U_ShlAssign_BInt_ref_shl_assign (dbg : bool) (w : Z) (self : list Z) (rhs : list Z) : outcome (list Z) :=
+  U_ShlAssign_BInt_shl_assign dbg w self rhs.
+
+Definition U_Shr_BInt_shr (dbg : bool) (w : Z) (self : list Z) (rhs : list Z) : outcome (list Z) :=
+  obind (Convert.I_try_to_uprim dbg 32 w rhs) (fun (r1 : Convert.result (Z)) => (obind (match r1 with Convert.Ok x => Ret x | Convert.Err => Panic end) (fun (rhs : Z) => (Shift.U_shr dbg w self rhs)))).
+
+Definition U_Shr_BInt_vr_shr (dbg : bool) (w : Z) (self : list Z) (rhs : list Z) : outcome (list Z) :=
+  U_Shr_BInt_shr dbg w self rhs.
+
+Definition U_Shr_BInt_rr_shr (dbg : bool) (w : Z) (self : list Z) (rhs : list Z) : outcome (list Z) :=
+  U_Shr_BInt_shr dbg w self rhs.
+
+Definition U_Shr_BInt_rv_shr (dbg : bool) (w : Z) (self : list Z) (rhs : list Z) : outcome (list Z) :=
+  U_Shr_BInt_shr dbg w self rhs.
+
+Definition U_ShrAssign_BInt_shr_assign (dbg : bool) (w : Z) (self : list Z) (rhs : list Z) : outcome (list Z) :=
+  U_Shr_BInt_shr dbg w self rhs.
+
+Definition U_ShrAssign_BInt_ref_shr_assign (dbg : bool) (w : Z) (self : list Z) (rhs : list Z) : outcome (list Z) :=
+  U_ShrAssign_BInt_shr_assign dbg w self rhs.
+
+Definition U_AddAssign_add_assign (dbg : bool) (w : Z) (self : list Z) (rhs : list Z) : outcome (list Z) :=
+  U_Add_add dbg w self rhs.
+
+Definition U_AddAssign_ref_add_assign (dbg : bool) (w : Z) (self : list Z) (rhs : list Z) : outcome (list Z) :=
+  U_AddAssign_add_assign dbg w self rhs.
+
+Definition U_Add_vr_add (dbg : bool) (w : Z) (self : list Z) (rhs : list Z) : outcome (list Z) :=
+  U_Add_add dbg w self rhs.
+
+Definition U_Add_rr_add (dbg : bool) (w : Z) (self : list Z) (rhs : list Z) : outcome (list Z) :=
+  U_Add_add dbg w self rhs.
+
+Definition U_Add_rv_add (dbg : bool) (w : Z) (self : list Z) (rhs : list Z) : outcome (list Z) :=
+  U_Add_add dbg w self rhs.
+
+Definition U_BitAndAssign_bitand_assign (w : Z) (self : list Z) (rhs : list Z) : list Z :=
+  let self_new := (U_BitAnd_bitand w self rhs) in self_new.
+
+Definition U_BitAndAssign_ref_bitand_assign (w : Z) (self : list Z) (rhs : list Z) : list Z :=
+  let self_new := (U_BitAndAssign_bitand_assign w self rhs) in self_new.
+
+Definition U_BitAnd_vr_bitand (w : Z) (self : list Z) (rhs : list Z) : list Z :=
+  U_BitAnd_bitand w self rhs.
+
+Definition U_BitAnd_rr_bitand (w : Z) (self : list Z) (rhs : list Z) : list Z :=
+  U_BitAnd_bitand w self rhs.
+
+Definition U_BitAnd_rv_bitand (w : Z) (self : list Z) (rhs : list Z) : list Z :=
+  U_BitAnd_bitand w self rhs.
+
+Definition U_BitOrAssign_bitor_assign (w : Z) (self : list Z) (rhs : list Z) : list Z :=
+  let self_new := (U_BitOr_bitor w self rhs) in self_new.
+
+Definition U_BitOrAssign_ref_bitor_assign (w : Z) (self : list Z) (rhs : list Z) : list Z :=
+  let self_new := (U_BitOrAssign_bitor_assign w self rhs) in self_new.
+
+Definition U_BitOr_vr_bitor (w : Z) (self : list Z) (rhs : list Z) : list Z :=
+  U_BitOr_bitor w self rhs.
+
+Definition U_BitOr_rr_bitor (w : Z) (self : list Z) (rhs : list Z) : list Z :=
+  U_BitOr_bitor w self rhs.
+
+Definition U_BitOr_rv_bitor (w : Z) (self : list Z) (rhs : list Z) : list Z :=
+  U_BitOr_bitor w self rhs.
+
+Definition U_BitXorAssign_bitxor_assign (w : Z) (self : list Z) (rhs : list Z) : list Z :=
+  let self_new := (U_BitXor_bitxor w self rhs) in self_new.
+
+Definition U_BitXorAssign_ref_bitxor_assign (w : Z) (self : list Z) (rhs : list Z) : list Z :=
+  let self_new := (U_BitXorAssign_bitxor_assign w self rhs) in self_new.
+
+Definition U_BitXor_vr_bitxor (w : Z) (self : list Z) (rhs : list Z) : list Z :=
+  U_BitXor_bitxor w self rhs.
+
+Definition U_BitXor_rr_bitxor (w : Z) (self : list Z) (rhs : list Z) : list Z :=
+  U_BitXor_bitxor w self rhs.
+
+Definition U_BitXor_rv_bitxor (w : Z) (self : list Z) (rhs : list Z) : list Z :=
+  U_BitXor_bitxor w self rhs.
+
+Definition U_DivAssign_div_assign (w : Z) (self : list Z) (rhs : list Z) : outcome (list Z) :=
+  U_Div_div w self rhs.
+
+Definition U_DivAssign_ref_div_assign (w : Z) (self : list Z) (rhs : list Z) : outcome (list Z) :=
+  U_DivAssign_div_assign w self rhs.
+
+Definition U_Div_vr_div (w : Z) (self : list Z) (rhs : list Z) : outcome (list Z) :=
+  U_Div_div w self rhs.
+
+Definition U_Div_rr_div (w : Z) (self : list Z) (rhs : list Z) : outcome (list Z) :=
+  U_Div_div w self rhs.
+
+Definition U_Div_rv_div (w : Z) (self : list Z) (rhs : list Z) : outcome (list Z) :=
+  U_Div_div w self rhs.
+
+Definition U_MulAssign_mul_assign (dbg : bool) (w : Z) (self : list Z) (rhs : list Z) : outcome (list Z) :=
+  U_Mul_mul dbg w self rhs.
+
+Definition U_MulAssign_ref_mul_assign (dbg : bool) (w : Z) (self : list Z) (rhs : list Z) : outcome (list Z) :=
+  U_MulAssign_mul_assign dbg w self rhs.
+
+Definition U_Mul_vr_mul (dbg : bool) (w : Z) (self : list Z) (rhs : list Z) : outcome (list Z) :=
+  U_Mul_mul dbg w self rhs.
+
+Definition U_Mul_rr_mul (dbg : bool) (w : Z) (self : list Z) (rhs : list Z) : outcome (list Z) :=
+  U_Mul_mul dbg w self rhs.
+
+Definition U_Mul_rv_mul (dbg : bool) (w : Z) (self : list Z) (rhs : list Z) : outcome (list Z) :=
+  U_Mul_mul dbg w self rhs.
+
+Definition U_RemAssign_rem_assign (w : Z) (self : list Z) (rhs : list Z) : outcome (list Z) :=
+  U_Rem_rem w self rhs.
+
+Definition U_RemAssign_ref_rem_assign (w : Z) (self : list Z) (rhs : list Z) : outcome (list Z) :=
+  U_RemAssign_rem_assign w self rhs.
+
+Definition U_Rem_vr_rem (w : Z) (self : list Z) (rhs : list Z) : outcome (list Z) :=
+  U_Rem_rem w self rhs.
+
+Definition U_Rem_rr_rem (w : Z) (self : list Z) (rhs : list Z) : outcome (list Z) :=
+  U_Rem_rem w self rhs.
+
+Definition U_Rem_rv_rem (w : Z) (self : list Z) (rhs : list Z) : outcome (list Z) :=
+  U_Rem_rem w self rhs.
+
+Definition U_ShlAssign_u8_shl_assign (dbg : bool) (w : Z) (self : list Z) (rhs : Z) : outcome (list Z) :=
+  U_Shl_u8_shl dbg w self rhs.
+
+Definition U_ShlAssign_u8_ref_shl_assign (dbg : bool) (w : Z) (self : list Z) (rhs : Z) : outcome (list Z) :=
+  U_ShlAssign_u8_shl_assign dbg w self rhs.
+
+Definition U_Shl_u8_vr_shl (dbg : bool) (w : Z) (self : list Z) (rhs : Z) : outcome (list Z) :=
+  U_Shl_u8_shl dbg w self rhs.
+
+Definition U_Shl_u8_rr_shl (dbg : bool) (w : Z) (self : list Z) (rhs : Z) : outcome (list Z) :=
+  U_Shl_u8_shl dbg w self rhs.
+
+Definition U_Shl_u8_rv_shl (dbg : bool) (w : Z) (self : list Z) (rhs : Z) : outcome (list Z) :=
+  U_Shl_u8_shl dbg w self rhs.
+
+Definition U_ShlAssign_u16_shl_assign (dbg : bool) (w : Z) (self : list Z) (rhs : Z) : outcome (list Z) :=
+  U_Shl_u16_shl dbg w self rhs.
+
+Definition U_ShlAssign_u16_ref_shl_assign (dbg : bool) (w : Z) (self : list Z) (rhs : Z) : outcome (list Z) :=
+  U_ShlAssign_u16_shl_assign dbg w self rhs.
+
+Definition U_Shl_u16_vr_shl (dbg : bool) (w : Z) (self : list Z) (rhs : Z) : outcome (list Z) :=
+  U_Shl_u16_shl dbg w self rhs.
+
+Definition U_Shl_u16_rr_shl (dbg : bool) (w : Z) (self : list Z) (rhs : Z) : outcome (list Z) :=
+  U_Shl_u16_shl dbg w self rhs.
+
+Definition U_Shl_u16_rv_shl (dbg : bool) (w : Z) (self : list Z) (rhs : Z) : outcome (list Z) :=
+  U_Shl_u16_shl dbg w self rhs.
+
+Definition U_ShlAssign_u32_shl_assign (dbg : bool) (w : Z) (self : list Z) (rhs : Z) : outcome (list Z) :=
+  U_Shl_ExpType_shl dbg w self rhs.
+
+Definition U_ShlAssign_u32_ref_shl_assign (dbg : bool) (w : Z) (self : list Z) (rhs : Z) : outcome (list Z) :=
+  U_ShlAssign_u32_shl_assign dbg w self rhs.
+
+Definition U_Shl_u32_vr_shl (dbg : bool) (w : Z) (self : list Z) (rhs : Z) : outcome (list Z) :=
+  U_Shl_ExpType_shl dbg w self rhs.
+
+Definition U_Shl_u32_rr_shl (dbg : bool) (w : Z) (self : list Z) (rhs : Z) : outcome (list Z) :=
+  U_Shl_ExpType_shl dbg w self rhs.
+
+Definition U_Shl_u32_rv_shl (dbg : bool) (w : Z) (self : list Z) (rhs : Z) : outcome (list Z) :=
+  U_Shl_ExpType_shl dbg w self rhs.
+
+Definition U_ShlAssign_u64_shl_assign (dbg : bool) (w : Z) (self : list Z) (rhs : Z) : outcome (list Z) :=
+  U_Shl_u64_shl dbg w self rhs.
+
+Definition U_ShlAssign_u64_ref_shl_assign (dbg : bool) (w : Z) (self : list Z) (rhs : Z) : outcome (list Z) :=
+  U_ShlAssign_u64_shl_assign dbg w self rhs.
+
+Definition U_Shl_u64_vr_shl (dbg : bool) (w : Z) (self : list Z) (rhs : Z) : outcome (list Z) :=
+  U_Shl_u64_shl dbg w self rhs.
+
+Definition U_Shl_u64_rr_shl (dbg : bool) (w : Z) (self : list Z) (rhs : Z) : outcome (list Z) :=
+  U_Shl_u64_shl dbg w self rhs.
+
+Definition U_Shl_u64_rv_shl (dbg : bool) (w : Z) (self : list Z) (rhs : Z) : outcome (list Z) :=
+  U_Shl_u64_shl dbg w self rhs.
+
+Definition U_ShlAssign_u128_shl_assign (dbg : bool) (w : Z) (self : list Z) (rhs : Z) : outcome (list Z) :=
+  U_Shl_u128_shl dbg w self rhs.
+
+Definition U_ShlAssign_u128_ref_shl_assign (dbg : bool) (w : Z) (self : list Z) (rhs : Z) : outcome (list Z) :=
+  U_ShlAssign_u128_shl_assign dbg w self rhs.
+
+Definition U_Shl_u128_vr_shl (dbg : bool) (w : Z) (self : list Z) (rhs : Z) : outcome (list Z) :=
+  U_Shl_u128_shl dbg w self rhs.
+
+Definition U_Shl_u128_rr_shl (dbg : bool) (w : Z) (self : list Z) (rhs : Z) : outcome (list Z) :=
+  U_Shl_u128_shl dbg w self rhs.
+
+Definition U_Shl_u128_rv_shl (dbg : bool) (w : Z) (self : list Z) (rhs : Z) : outcome (list Z) :=
+  U_Shl_u128_shl dbg w self rhs.
+
+Definition U_ShlAssign_usize_shl_assign (dbg : bool) (w : Z) (self : list Z) (rhs : Z) : outcome (list Z) :=
+  U_Shl_usize_shl dbg w self rhs.
+
+Definition U_ShlAssign_usize_ref_shl_assign (dbg : bool) (w : Z) (self : list Z) (rhs : Z) : outcome (list Z) :=
+  U_ShlAssign_usize_shl_assign dbg w self rhs.
+
+Definition U_Shl_usize_vr_shl (dbg : bool) (w : Z) (self : list Z) (rhs : Z) : outcome (list Z) :=
+  U_Shl_usize_shl dbg w self rhs.
+
+Definition U_Shl_usize_rr_shl (dbg : bool) (w : Z) (self : list Z) (rhs : Z) : outcome (list Z) :=
+  U_Shl_usize_shl dbg w self rhs.
+
+Definition U_Shl_usize_rv_shl (dbg : bool) (w : Z) (self : list Z) (rhs : Z) : outcome (list Z) :=
+  U_Shl_usize_shl dbg w self rhs.
+
+Definition U_ShlAssign_i8_shl_assign (dbg : bool) (w : Z) (self : list Z) (rhs : Z) : outcome (list Z) :=
+  U_Shl_i8_shl dbg w self rhs.
+
+Definition U_ShlAssign_i8_ref_shl_assign (dbg : bool) (w : Z) (self : list Z) (rhs : Z) : outcome (list Z) :=
+  U_ShlAssign_i8_shl_assign dbg w self rhs.
+
+Definition U_Shl_i8_vr_shl (dbg : bool) (w : Z) (self : list Z) (rhs : Z) : outcome (list Z) :=
+  U_Shl_i8_shl dbg w self rhs.
+
+Definition U_Shl_i8_rr_shl (dbg : bool) (w : Z) (self : list Z) (rhs : Z) : outcome (list Z) :=
+  U_Shl_i8_shl dbg w self rhs.
+
+Definition U_Shl_i8_rv_shl (dbg : bool) (w : Z) (self : list Z) (rhs : Z) : outcome (list Z) :=
+  U_Shl_i8_shl dbg w self rhs.
+
+Definition U_ShlAssign_i16_shl_assign (dbg : bool) (w : Z) (self : list Z) (rhs : Z) : outcome (list Z) :=
+  U_Shl_i16_shl dbg w self rhs.
+
+Definition U_ShlAssign_i16_ref_shl_assign (dbg : bool) (w : Z) (self : list Z) (rhs : Z) : outcome (list Z) :=
+  U_ShlAssign_i16_shl_assign dbg w self rhs.
+
+Definition U_Shl_i16_vr_shl (dbg : bool) (w : Z) (self : list Z) (rhs : Z) : outcome (list Z) :=
+  U_Shl_i16_shl dbg w self rhs.
+
+Definition U_Shl_i16_rr_shl (dbg : bool) (w : Z) (self : list Z) (rhs : Z) : outcome (list Z) :=
+  U_Shl_i16_shl dbg w self rhs.
+
+Definition U_Shl_i16_rv_shl (dbg : bool) (w : Z) (self : list Z) (rhs : Z) : outcome (list Z) :=
+  U_Shl_i16_shl dbg w self rhs.
+
+Definition U_ShlAssign_i32_shl_assign (dbg : bool) (w : Z) (self : list Z) (rhs : Z) : outcome (list Z) :=
+  U_Shl_i32_shl dbg w self rhs.
+
+Definition U_ShlAssign_i32_ref_shl_assign (dbg : bool) (w : Z) (self : list Z) (rhs : Z) : outcome (list Z) :=
+  U_ShlAssign_i32_shl_assign dbg w self rhs.
+
+Definition U_Shl_i32_vr_shl (dbg : bool) (w : Z) (self : list Z) (rhs : Z) : outcome (list Z) :=
+  U_Shl_i32_shl dbg w self rhs.
+
+Definition U_Shl_i32_rr_shl (dbg : bool) (w : Z) (self : list Z) (rhs : Z) : outcome (list Z) :=
+  U_Shl_i32_shl dbg w self rhs.
+
+Definition U_Shl_i32_rv_shl (dbg : bool) (w : Z) (self : list Z) (rhs : Z) : outcome (list Z) :=
+  U_Shl_i32_shl dbg w self rhs.
+
+Definition U_ShlAssign_i64_shl_assign (dbg : bool) (w : Z) (self : list Z) (rhs : Z) : outcome (list Z) :=
+  U_Shl_i64_shl dbg w self rhs.
+
+Definition U_ShlAssign_i64_ref_shl_assign (dbg : bool) (w : Z) (self : list Z) (rhs : Z) : outcome (list Z) :=
+  U_ShlAssign_i64_shl_assign dbg w self rhs.
+
+Definition U_Shl_i64_vr_shl (dbg : bool) (w : Z) (self : list Z) (rhs : Z) : outcome (list Z) :=
+  U_Shl_i64_shl dbg w self rhs.
+
+Definition U_Shl_i64_rr_shl (dbg : bool) (w : Z) (self : list Z) (rhs : Z) : outcome (list Z) :=
+  U_Shl_i64_shl dbg w self rhs.
+
+Definition U_Shl_i64_rv_shl (dbg : bool) (w : Z) (self : list Z) (rhs : Z) : outcome (list Z) :=
+  U_Shl_i64_shl dbg w self rhs.
+
+Definition U_ShlAssign_i128_shl_assign (dbg : bool) (w : Z) (self : list Z) (rhs : Z) : outcome (list Z) :=
+  U_Shl_i128_shl dbg w self rhs.
+
+Definition U_ShlAssign_i128_ref_shl_assign (dbg : bool) (w : Z) (self : list Z) (rhs : Z) : outcome (list Z) :=
+  U_ShlAssign_i128_shl_assign dbg w self rhs.
+
+Definition U_Shl_i128_vr_shl (dbg : bool) (w : Z) (self : list Z) (rhs : Z) : outcome (list Z) :=
+  U_Shl_i128_shl dbg w self rhs.
+
+Definition U_Shl_i128_rr_shl (dbg : bool) (w : Z) (self : list Z) (rhs : Z) : outcome (list Z) :=
+  U_Shl_i128_shl dbg w self rhs.
+
+Definition U_Shl_i128_rv_shl (dbg : bool) (w : Z) (self : list Z) (rhs : Z) : outcome (list Z) :=
+  U_Shl_i128_shl dbg w self rhs.
+
+Definition U_ShlAssign_isize_shl_assign (dbg : bool) (w : Z) (self : list Z) (rhs : Z) : outcome (list Z) :=
+  U_Shl_isize_shl dbg w self rhs.
+
+Definition U_ShlAssign_isize_ref_shl_assign (dbg : bool) (w : Z) (self : list Z) (rhs : Z) : outcome (list Z) :=
+  U_ShlAssign_isize_shl_assign dbg w self rhs.
+
+Definition U_Shl_isize_vr_shl (dbg : bool) (w : Z) (self : list Z) (rhs : Z) : outcome (list Z) :=
+  U_Shl_isize_shl dbg w self rhs.
+
+Definition U_Shl_isize_rr_shl (dbg : bool) (w : Z) (self : list Z) (rhs : Z) : outcome (list Z) :=
+  U_Shl_isize_shl dbg w self rhs.
+
+Definition U_Shl_isize_rv_shl (dbg : bool) (w : Z) (self : list Z) (rhs : Z) : outcome (list Z) :=
+  U_Shl_isize_shl dbg w self rhs.
+
+Definition U_ShrAssign_u8_shr_assign (dbg : bool) (w : Z) (self : list Z) (rhs : Z) : outcome (list Z) :=
+  U_Shr_u8_shr dbg w self rhs.
+
+Definition U_ShrAssign_u8_ref_shr_assign (dbg : bool) (w : Z) (self : list Z) (rhs : Z) : outcome (list Z) :=
+  U_ShrAssign_u8_shr_assign dbg w self rhs.
+
+Definition U_Shr_u8_vr_shr (dbg : bool) (w : Z) (self : list Z) (rhs : Z) : outcome (list Z) :=
+  U_Shr_u8_shr dbg w self rhs.
+
+Definition U_Shr_u8_rr_shr (dbg : bool) (w : Z) (self : list Z) (rhs : Z) : outcome (list Z) :=
+  U_Shr_u8_shr dbg w self rhs.
+
+Definition U_Shr_u8_rv_shr (dbg : bool) (w : Z) (self : list Z) (rhs : Z) : outcome (list Z) :=
+  U_Shr_u8_shr dbg w self rhs.
+
+Definition U_ShrAssign_u16_shr_assign (dbg : bool) (w : Z) (self : list Z) (rhs : Z) : outcome (list Z) :=
+  U_Shr_u16_shr dbg w self rhs.
+
+Definition U_ShrAssign_u16_ref_shr_assign (dbg : bool) (w : Z) (self : list Z) (rhs : Z) : outcome (list Z) :=
+  U_ShrAssign_u16_shr_assign dbg w self rhs.
+
+Definition U_Shr_u16_vr_shr (dbg : bool) (w : Z) (self : list Z) (rhs : Z) : outcome (list Z) :=
+  U_Shr_u16_shr dbg w self rhs.
+
+Definition U_Shr_u16_rr_shr (dbg : bool) (w : Z) (self : list Z) (rhs : Z) : outcome (list Z) :=
+  U_Shr_u16_shr dbg w self rhs.
+
+Definition U_Shr_u16_rv_shr (dbg : bool) (w : Z) (self : list Z) (rhs : Z) : outcome (list Z) :=
+  U_Shr_u16_shr dbg w self rhs.
+
+Definition U_ShrAssign_u32_shr_assign (dbg : bool) (w : Z) (self : list Z) (rhs : Z) : outcome (list Z) :=
+  U_Shr_ExpType_shr dbg w self rhs.
+
+Definition U_ShrAssign_u32_ref_shr_assign (dbg : bool) (w : Z) (self : list Z) (rhs : Z) : outcome (list Z) :=
+  U_ShrAssign_u32_shr_assign dbg w self rhs.
+
+Definition U_Shr_u32_vr_shr (dbg : bool) (w : Z) (self : list Z) (rhs : Z) : outcome (list Z) :=
+  U_Shr_ExpType_shr dbg w self rhs.
+
+Definition U_Shr_u32_rr_shr (dbg : bool) (w : Z) (self : list Z) (rhs : Z) : outcome (list Z) :=
+  U_Shr_ExpType_shr dbg w self rhs.
+
+Definition U_Shr_u32_rv_shr (dbg : bool) (w : Z) (self : list Z) (rhs : Z) : outcome (list Z) :=
+  U_Shr_ExpType_shr dbg w self rhs.
+
+Definition U_ShrAssign_u64_shr_assign (dbg : bool) (w : Z) (self : list Z) (rhs : Z) : outcome (list Z) :=
+  U_Shr_u64_shr dbg w self rhs.
+
+Definition U_ShrAssign_u64_ref_shr_assign (dbg : bool) (w : Z) (self : list Z) (rhs : Z) : outcome (list Z) :=
+  U_ShrAssign_u64_shr_assign dbg w self rhs.
+
+Definition U_Shr_u64_vr_shr (dbg : bool) (w : Z) (self : list Z) (rhs : Z) : outcome (list Z) :=
+  U_Shr_u64_shr dbg w self rhs.
+
+Definition U_Shr_u64_rr_shr (dbg : bool) (w : Z) (self : list Z) (rhs : Z) : outcome (list Z) :=
+  U_Shr_u64_shr dbg w self rhs.
+
+Definition U_Shr_u64_rv_shr (dbg : bool) (w : Z) (self : list Z) (rhs : Z) : outcome (list Z) :=
+  U_Shr_u64_shr dbg w self rhs.
+
+Definition U_ShrAssign_u128_shr_assign (dbg : bool) (w : Z) (self : list Z) (rhs : Z) : outcome (list Z) :=
+  U_Shr_u128_shr dbg w self rhs.
+
+Definition U_ShrAssign_u128_ref_shr_assign (dbg : bool) (w : Z) (self : list Z) (rhs : Z) : outcome (list Z) :=
+  U_ShrAssign_u128_shr_assign dbg w self rhs.
+
+Definition U_Shr_u128_vr_shr (dbg : bool) (w : Z) (self : list Z) (rhs : Z) : outcome (list Z) :=
+  U_Shr_u128_shr dbg w self rhs.
+
+Definition U_Shr_u128_rr_shr (dbg : bool) (w : Z) (self : list Z) (rhs : Z) : outcome (list Z) :=
+  U_Shr_u128_shr dbg w self rhs.
+
+Definition U_Shr_u128_rv_shr (dbg : bool) (w : Z) (self : list Z) (rhs : Z) : outcome (list Z) :=
+  U_Shr_u128_shr dbg w self rhs.
+
+Definition U_ShrAssign_usize_shr_assign (dbg : bool) (w : Z) (self : list Z) (rhs : Z) : outcome (list Z) :=
+  U_Shr_usize_shr dbg w self rhs.
+
+Definition U_ShrAssign_usize_ref_shr_assign (dbg : bool) (w : Z) (self : list Z) (rhs : Z) : outcome (list Z) :=
+  U_ShrAssign_usize_shr_assign dbg w self rhs.
+
+Definition U_Shr_usize_vr_shr (dbg : bool) (w : Z) (self : list Z) (rhs : Z) : outcome (list Z) :=
+  U_Shr_usize_shr dbg w self rhs.
+
+Definition U_Shr_usize_rr_shr (dbg : bool) (w : Z) (self : list Z) (rhs : Z) : outcome (list Z) :=
+  U_Shr_usize_shr dbg w self rhs.
+
+Definition U_Shr_usize_rv_shr (dbg : bool) (w : Z) (self : list Z) (rhs : Z) : outcome (list Z) :=
+  U_Shr_usize_shr dbg w self rhs.
+
+Definition U_ShrAssign_i8_shr_assign (dbg : bool) (w : Z) (self : list Z) (rhs : Z) : outcome (list Z) :=
+  U_Shr_i8_shr dbg w self rhs.
+
+Definition U_ShrAssign_i8_ref_shr_assign (dbg : bool) (w : Z) (self : list Z) (rhs : Z) : outcome (list Z) :=
+  U_ShrAssign_i8_shr_assign dbg w self rhs.
+
+Definition U_Shr_i8_vr_shr (dbg : bool) (w : Z) (self : list Z) (rhs : Z) : outcome (list Z) :=
+  U_Shr_i8_shr dbg w self rhs.
+
+Definition U_Shr_i8_rr_shr (dbg : bool) (w : Z) (self : list Z) (rhs : Z) : outcome (list Z) :=
+  U_Shr_i8_shr dbg w self rhs.
+
+Definition U_Shr_i8_rv_shr (dbg : bool) (w : Z) (self : list Z) (rhs : Z) : outcome (list Z) :=
+  U_Shr_i8_shr dbg w self rhs.
+
+Definition U_ShrAssign_i16_shr_assign (dbg : bool) (w : Z) (self : list Z) (rhs : Z) : outcome (list Z) :=
+  U_Shr_i16_shr dbg w self rhs.
+
+Definition U_ShrAssign_i16_ref_shr_assign (dbg : bool) (w : Z) (self : list Z) (rhs : Z) : outcome (list Z) :=
+  U_ShrAssign_i16_shr_assign dbg w self rhs.
+
+Definition U_Shr_i16_vr_shr (dbg : bool) (w : Z) (self : list Z) (rhs : Z) : outcome (list Z) :=
+  U_Shr_i16_shr dbg w self rhs.
+
+Definition U_Shr_i16_rr_shr (dbg : bool) (w : Z) (self : list Z) (rhs : Z) : outcome (list Z) :=
+  U_Shr_i16_shr dbg w self rhs.
+
+Definition U_Shr_i16_rv_shr (dbg : bool) (w : Z) (self : list Z) (rhs : Z) : outcome (list Z) :=
+  U_Shr_i16_shr dbg w self rhs.
+
+Definition U_ShrAssign_i32_shr_assign (dbg : bool) (w : Z) (self : list Z) (rhs : Z) : outcome (list Z) :=
+  U_Shr_i32_shr dbg w self rhs.
+
+Definition U_ShrAssign_i32_ref_shr_assign (dbg : bool) (w : Z) (self : list Z) (rhs : Z) : outcome (list Z) :=
+  U_ShrAssign_i32_shr_assign dbg w self rhs.
+
+Definition U_Shr_i32_vr_shr (dbg : bool) (w : Z) (self : list Z) (rhs : Z) : outcome (list Z) :=
+  U_Shr_i32_shr dbg w self rhs.
+
+Definition U_Shr_i32_rr_shr (dbg : bool) (w : Z) (self : list Z) (rhs : Z) : outcome (list Z) :=
+  U_Shr_i32_shr dbg w self rhs.
+
+Definition U_Shr_i32_rv_shr (dbg : bool) (w : Z) (self : list Z) (rhs : Z) : outcome (list Z) :=
+  U_Shr_i32_shr dbg w self rhs.
+
+Definition U_ShrAssign_i64_shr_assign (dbg : bool) (w : Z) (self : list Z) (rhs : Z) : outcome (list Z) :=
+  U_Shr_i64_shr dbg w self rhs.
+
+Definition U_ShrAssign_i64_ref_shr_assign (dbg : bool) (w : Z) (self : list Z) (rhs : Z) : outcome (list Z) :=
+  U_ShrAssign_i64_shr_assign dbg w self rhs.
+
+Definition U_Shr_i64_vr_shr (dbg : bool) (w : Z) (self : list Z) (rhs : Z) : outcome (list Z) :=
+  U_Shr_i64_shr dbg w self rhs.
+
+Definition U_Shr_i64_rr_shr (dbg : bool) (w : Z) (self : list Z) (rhs : Z) : outcome (list Z) :=
+  U_Shr_i64_shr dbg w self rhs.
+
+Definition U_Shr_i64_rv_shr (dbg : bool) (w : Z) (self : list Z) (rhs : Z) : outcome (list Z) :=
+  U_Shr_i64_shr dbg w self rhs.
+
+Definition U_ShrAssign_i128_shr_assign (dbg : bool) (w : Z) (self : list Z) (rhs : Z) : outcome (list Z) :=
+  U_Shr_i128_shr dbg w self rhs.
+
+Definition U_ShrAssign_i128_ref_shr_assign (dbg : bool) (w : Z) (self : list Z) (rhs : Z) : outcome (list Z) :=
+  U_ShrAssign_i128_shr_assign dbg w self rhs.
+
+Definition U_Shr_i128_vr_shr (dbg : bool) (w : Z) (self : list Z) (rhs : Z) : outcome (list Z) :=
+  U_Shr_i128_shr dbg w self rhs.
+
+Definition U_Shr_i128_rr_shr (dbg : bool) (w : Z) (self : list Z) (rhs : Z) : outcome (list Z) :=
+  U_Shr_i128_shr dbg w self rhs.
+
+Definition U_Shr_i128_rv_shr (dbg : bool) (w : Z) (self : list Z) (rhs : Z) : outcome (list Z) :=
+  U_Shr_i128_shr dbg w self rhs.
+
+Definition U_ShrAssign_isize_shr_assign (dbg : bool) (w : Z) (self : list Z) (rhs : Z) : outcome (list Z) :=
+  U_Shr_isize_shr dbg w self rhs.
+
+Definition U_ShrAssign_isize_ref_shr_assign (dbg : bool) (w : Z) (self : list Z) (rhs : Z) : outcome (list Z) :=
+  U_ShrAssign_isize_shr_assign dbg w self rhs.
+
+Definition U_Shr_isize_vr_shr (dbg : bool) (w : Z) (self : list Z) (rhs : Z) : outcome (list Z) :=
+  U_Shr_isize_shr dbg w self rhs.
+
+Definition U_Shr_isize_rr_shr (dbg : bool) (w : Z) (self : list Z) (rhs : Z) : outcome (list Z) :=
+  U_Shr_isize_shr dbg w self rhs.
+
+Definition U_Shr_isize_rv_shr (dbg : bool) (w : Z) (self : list Z) (rhs : Z) : outcome (list Z) :=
+  U_Shr_isize_shr dbg w self rhs.
+
+Definition U_SubAssign_sub_assign (dbg : bool) (w : Z) (self : list Z) (rhs : list Z) : outcome (list Z) :=
+  U_Sub_sub dbg w self rhs.
+
+Definition U_SubAssign_ref_sub_assign (dbg : bool) (w : Z) (self : list Z) (rhs : list Z) : outcome (list Z) :=
+  U_SubAssign_sub_assign dbg w self rhs.
+
+Definition U_Sub_vr_sub (dbg : bool) (w : Z) (self : list Z) (rhs : list Z) : outcome (list Z) :=
+  U_Sub_sub dbg w self rhs.
+
+Definition U_Sub_rr_sub (dbg : bool) (w : Z) (self : list Z) (rhs : list Z) : outcome (list Z) :=
+  U_Sub_sub dbg w self rhs.
+
+Definition U_Sub_rv_sub (dbg : bool) (w : Z) (self : list Z) (rhs : list Z) : outcome (list Z) :=
+  U_Sub_sub dbg w self rhs.
+
+Definition I_Shl_BUint_shl (dbg : bool) (w : Z) (self : list Z) (rhs : list Z) : outcome (list Z) :=
+  obind (Convert.U_try_to_prim dbg 32 false w rhs) (fun (r1 : Convert.result (Z)) => (obind (match r1 with Convert.Ok x => Ret x | Convert.Err => Panic end) (fun (rhs : Z) => (Shift.I_shl dbg w self rhs)))).
+
+Definition I_Shl_BUint_vr_shl (dbg : bool) (w : Z) (self : list Z) (rhs : list Z) : outcome (list Z) :=
+  I_Shl_BUint_shl dbg w self rhs.
+
+Definition I_Shl_BUint_rr_shl (dbg : bool) (w : Z) (self : list Z) (rhs : list Z) : outcome (list Z) :=
+  I_Shl_BUint_shl dbg w self rhs.
+
+Definition I_Shl_BUint_rv_shl (dbg : bool) (w : Z) (self : list Z) (rhs : list Z) : outcome (list Z) :=
+  I_Shl_BUint_shl dbg w self rhs.
+
+Definition I_ShlAssign_BUint_shl_assign (dbg : bool) (w : Z) (self : list Z) (rhs : list Z) : outcome (list Z) :=
+  I_Shl_BUint_shl dbg w self rhs.
+
+Definition I_ShlAssign_BUint_ref_shl_assign (dbg : bool) (w : Z) (self : list Z) (rhs : list Z) : outcome (list Z) :=
+  I_ShlAssign_BUint_shl_assign dbg w self rhs.
+
+Definition I_Shr_BUint_shr (dbg : bool) (w : Z) (self : list Z) (rhs : list Z) : outcome (list Z) :=
+  obind (Convert.U_try_to_prim dbg 32 false w rhs) (fun (r1 : Convert.result (Z)) => (obind (match r1 with Convert.Ok x => Ret x | Convert.Err => Panic end) (fun (rhs : Z) => (Shift.I_shr dbg w self rhs)))).
+
+Definition I_Shr_BUint_vr_shr (dbg : bool) (w : Z) (self : list Z) (rhs : list Z) : outcome (list Z) :=
+  I_Shr_BUint_shr dbg w self rhs.
+
+Definition I_Shr_BUint_rr_shr (dbg : bool) (w : Z) (self : list Z) (rhs : list Z) : outcome (list Z) :=
+  I_Shr_BUint_shr dbg w self rhs.
+
+Definition I_Shr_BUint_rv_shr (dbg : bool) (w : Z) (self : list Z) (rhs : list Z) : outcome (list Z) :=
+  I_Shr_BUint_shr dbg w self rhs.
+
+Definition I_ShrAssign_BUint_shr_assign (dbg : bool) (w : Z) (self : list Z) (rhs : list Z) : outcome (list Z) :=
+  I_Shr_BUint_shr dbg w self rhs.
+
+Definition I_ShrAssign_BUint_ref_shr_assign (dbg : bool) (w : Z) (self : list Z) (rhs : list Z) : outcome (list Z) :=
+  I_ShrAssign_BUint_shr_assign dbg w self rhs.
+
+Definition I_Shl_BInt_shl (dbg : bool) (w : Z) (self : list Z) (rhs : list Z) : outcome (list Z) :=
+  obind (Convert.I_try_to_uprim dbg 32 w rhs) (fun (r1 : Convert.result (Z)) => (obind (match r1 with Convert.Ok x => Ret x | Convert.Err => Panic end) (fun (rhs : Z) => (Shift.I_shl dbg w self rhs)))).
+
+Definition I_Shl_BInt_vr_shl (dbg : bool) (w : Z) (self : list Z) (rhs : list Z) : outcome (list Z) :=
+  I_Shl_BInt_shl dbg w self rhs.
+
+Definition I_Shl_BInt_rr_shl (dbg : bool) (w : Z) (self : list Z) (rhs : list Z) : outcome (list Z) :=
+  I_Shl_BInt_shl dbg w self rhs.
+
+Definition I_Shl_BInt_rv_shl (dbg : bool) (w : Z) (self : list Z) (rhs : list Z) : outcome (list Z) :=
+  I_Shl_BInt_shl dbg w self rhs.
+
+Definition I_ShlAssign_BInt_shl_assign (dbg : bool) (w : Z) (self : list Z) (rhs : list Z) : outcome (list Z) :=
+  I_Shl_BInt_shl dbg w self rhs.
+
+Definition I_ShlAssign_BInt_ref_shl_assign (dbg : bool) (w : Z) (self : list Z) (rhs : list Z) : outcome (list Z) :=
+  I_ShlAssign_BInt_shl_assign dbg w self rhs.
+
+Definition I_Shr_BInt_shr (dbg : bool) (w : Z) (self : list Z) (rhs : list Z) : outcome (list Z) :=
+  obind (Convert.I_try_to_uprim dbg 32 w rhs) (fun (r1 : Convert.result (Z)) => (obind (match r1 with Convert.Ok x => Ret x | Convert.Err => Panic end) (fun (rhs : Z) => (Shift.I_shr dbg w self rhs)))).
+
+Definition I_Shr_BInt_vr_shr (dbg : bool) (w : Z) (self : list Z) (rhs : list Z) : outcome (list Z) :=
+  I_Shr_BInt_shr dbg w self rhs.
+
+Definition I_Shr_BInt_rr_shr (dbg : bool) (w : Z) (self : list Z) (rhs : list Z) : outcome (list Z) :=
+  I_Shr_BInt_shr dbg w self rhs.
+
+Definition I_Shr_BInt_rv_shr (dbg : bool) (w : Z) (self : list Z) (rhs : list Z) : outcome (list Z) :=
+  I_Shr_BInt_shr dbg w self rhs.
+
+Definition I_ShrAssign_BInt_shr_assign (dbg : bool) (w : Z) (self : list Z) (rhs : list Z) : outcome (list Z) :=
+  I_Shr_BInt_shr dbg w self rhs.
+
+Definition I_ShrAssign_BInt_ref_shr_assign (dbg : bool) (w : Z) (self : list Z) (rhs : list Z) : outcome (list Z) :=
+  I_ShrAssign_BInt_shr_assign dbg w self rhs.
+
+Definition I_AddAssign_add_assign (dbg : bool) (w : Z) (self : list Z) (rhs : list Z) : outcome (list Z) :=
+  I_Add_add dbg w self rhs.
+
+Definition I_AddAssign_ref_add_assign (dbg : bool) (w : Z) (self : list Z) (rhs : list Z) : outcome (list Z) :=
+  I_AddAssign_add_assign dbg w self rhs.
+
+Definition I_Add_vr_add (dbg : bool) (w : Z) (self : list Z) (rhs : list Z) : outcome (list Z) :=
+  I_Add_add dbg w self rhs.
+
+Definition I_Add_rr_add (dbg : bool) (w : Z) (self : list Z) (rhs : list Z) : outcome (list Z) :=
+  I_Add_add dbg w self rhs.
+
+Definition I_Add_rv_add (dbg : bool) (w : Z) (self : list Z) (rhs : list Z) : outcome (list Z) :=
+  I_Add_add dbg w self rhs.
+
+Definition I_BitAndAssign_bitand_assign (w : Z) (self : list Z) (rhs : list Z) : list Z :=
+  let self_new := (I_BitAnd_bitand w self rhs) in self_new.
+
+Definition I_BitAndAssign_ref_bitand_assign (w : Z) (self : list Z) (rhs : list Z) : list Z :=
+  let self_new := (I_BitAndAssign_bitand_assign w self rhs) in self_new.
+
+Definition I_BitAnd_vr_bitand (w : Z) (self : list Z) (rhs : list Z) : list Z :=
+  I_BitAnd_bitand w self rhs.
+
+Definition I_BitAnd_rr_bitand (w : Z) (self : list Z) (rhs : list Z) : list Z :=
+  I_BitAnd_bitand w self rhs.
+
+Definition I_BitAnd_rv_bitand (w : Z) (self : list Z) (rhs : list Z) : list Z :=
+  I_BitAnd_bitand w self rhs.
+
+Definition I_BitOrAssign_bitor_assign (w : Z) (self : list Z) (rhs : list Z) : list Z :=
+  let self_new := (I_BitOr_bitor w self rhs) in self_new.
+
+Definition I_BitOrAssign_ref_bitor_assign (w : Z) (self : list Z) (rhs : list Z) : list Z :=
+  let self_new := (I_BitOrAssign_bitor_assign w self rhs) in self_new.
+
+Definition I_BitOr_vr_bitor (w : Z) (self : list Z) (rhs : list Z) : list Z :=
+  I_BitOr_bitor w self rhs.
+
+Definition I_BitOr_rr_bitor (w : Z) (self : list Z) (rhs : list Z) : list Z :=
+  I_BitOr_bitor w self rhs.
+
+Definition I_BitOr_rv_bitor (w : Z) (self : list Z) (rhs : list Z) : list Z :=
+  I_BitOr_bitor w self rhs.
+
+Definition I_BitXorAssign_bitxor_assign (w : Z) (self : list Z) (rhs : list Z) : list Z :=
+  let self_new := (I_BitXor_bitxor w self rhs) in self_new.
+
+Definition I_BitXorAssign_ref_bitxor_assign (w : Z) (self : list Z) (rhs : list Z) : list Z :=
+  let self_new := (I_BitXorAssign_bitxor_assign w self rhs) in self_new.
+
+Definition I_BitXor_vr_bitxor (w : Z) (self : list Z) (rhs : list Z) : list Z :=
+  I_BitXor_bitxor w self rhs.
+
+Definition I_BitXor_rr_bitxor (w : Z) (self : list Z) (rhs : list Z) : list Z :=
+  I_BitXor_bitxor w self rhs.
+
+Definition I_BitXor_rv_bitxor (w : Z) (self : list Z) (rhs : list Z) : list Z :=
+  I_BitXor_bitxor w self rhs.
+
+Definition I_DivAssign_div_assign (dbg : bool) (w : Z) (self : list Z) (rhs : list Z) : outcome (list Z) :=
+  I_Div_div dbg w self rhs.
+
+Definition I_DivAssign_ref_div_assign (dbg : bool) (w : Z) (self : list Z) (rhs : list Z) : outcome (list Z) :=
+  I_DivAssign_div_assign dbg w self rhs.
+
+Definition I_Div_vr_div (dbg : bool) (w : Z) (self : list Z) (rhs : list Z) : outcome (list Z) :=
+  I_Div_div dbg w self rhs.
+
+Definition I_Div_rr_div (dbg : bool) (w : Z) (self : list Z) (rhs : list Z) : outcome (list Z) :=
+  I_Div_div dbg w self rhs.
+
+Definition I_Div_rv_div (dbg : bool) (w : Z) (self : list Z) (rhs : list Z) : outcome (list Z) :=
+  I_Div_div dbg w self rhs.
+
+Definition I_MulAssign_mul_assign (dbg : bool) (w : Z) (self : list Z) (rhs : list Z) : outcome (list Z) :=
+  I_Mul_mul dbg w self rhs.
+
+Definition I_MulAssign_ref_mul_assign (dbg : bool) (w : Z) (self : list Z) (rhs : list Z) : outcome (list Z) :=
+  I_MulAssign_mul_assign dbg w self rhs.
+
+Definition I_Mul_vr_mul (dbg : bool) (w : Z) (self : list Z) (rhs : list Z) : outcome (list Z) :=
+  I_Mul_mul dbg w self rhs.
+
+Definition I_Mul_rr_mul (dbg : bool) (w : Z) (self : list Z) (rhs : list Z) : outcome (list Z) :=
+  I_Mul_mul dbg w self rhs.
+
+Definition I_Mul_rv_mul (dbg : bool) (w : Z) (self : list Z) (rhs : list Z) : outcome (list Z) :=
+  I_Mul_mul dbg w self rhs.
+
+Definition I_RemAssign_rem_assign (dbg : bool) (w : Z) (self : list Z) (rhs : list Z) : outcome (list Z) :=
+  I_Rem_rem dbg w self rhs.
+
+Definition I_RemAssign_ref_rem_assign (dbg : bool) (w : Z) (self : list Z) (rhs : list Z) : outcome (list Z) :=
+  I_RemAssign_rem_assign dbg w self rhs.
+
+Definition I_Rem_vr_rem (dbg : bool) (w : Z) (self : list Z) (rhs : list Z) : outcome (list Z) :=
+  I_Rem_rem dbg w self rhs.
+
+Definition I_Rem_rr_rem (dbg : bool) (w : Z) (self : list Z) (rhs : list Z) : outcome (list Z) :=
+  I_Rem_rem dbg w self rhs.
+
+Definition I_Rem_rv_rem (dbg : bool) (w : Z) (self : list Z) (rhs : list Z) : outcome (list Z) :=
+  I_Rem_rem dbg w self rhs.
+
+Definition I_ShlAssign_u8_shl_assign (dbg : bool) (w : Z) (self : list Z) (rhs : Z) : outcome (list Z) :=
+  I_Shl_u8_shl dbg w self rhs.
+
+Definition I_ShlAssign_u8_ref_shl_assign (dbg : bool) (w : Z) (self : list Z) (rhs : Z) : outcome (list Z) :=
+  I_ShlAssign_u8_shl_assign dbg w self rhs.
+
+Definition I_Shl_u8_vr_shl (dbg : bool) (w : Z) (self : list Z) (rhs : Z) : outcome (list Z) :=
+  I_Shl_u8_shl dbg w self rhs.
+
+Definition I_Shl_u8_rr_shl (dbg : bool) (w : Z) (self : list Z) (rhs : Z) : outcome (list Z) :=
+  I_Shl_u8_shl dbg w self rhs.
+
+Definition I_Shl_u8_rv_shl (dbg : bool) (w : Z) (self : list Z) (rhs : Z) : outcome (list Z) :=
+  I_Shl_u8_shl dbg w self rhs.
+
+Definition I_ShlAssign_u16_shl_assign (dbg : bool) (w : Z) (self : list Z) (rhs : Z) : outcome (list Z) :=
+  I_Shl_u16_shl dbg w self rhs.
+
+Definition I_ShlAssign_u16_ref_shl_assign (dbg : bool) (w : Z) (self : list Z) (rhs : Z) : outcome (list Z) :=
+  I_ShlAssign_u16_shl_assign dbg w self rhs.
+
+Definition I_Shl_u16_vr_shl (dbg : bool) (w : Z) (self : list Z) (rhs : Z) : outcome (list Z) :=
+  I_Shl_u16_shl dbg w self rhs.
+
+Definition I_Shl_u16_rr_shl (dbg : bool) (w : Z) (self : list Z) (rhs : Z) : outcome (list Z) :=
+  I_Shl_u16_shl dbg w self rhs.
+
+Definition I_Shl_u16_rv_shl (dbg : bool) (w : Z) (self : list Z) (rhs : Z) : outcome (list Z) :=
+  I_Shl_u16_shl dbg w self rhs.
+
+Definition I_ShlAssign_u32_shl_assign (dbg : bool) (w : Z) (self : list Z) (rhs : Z) : outcome (list Z) :=
+  I_Shl_ExpType_shl dbg w self rhs.
+
+Definition I_ShlAssign_u32_ref_shl_assign (dbg : bool) (w : Z) (self : list Z) (rhs : Z) : outcome (list Z) :=
+  I_ShlAssign_u32_shl_assign dbg w self rhs.
+
+Definition I_Shl_u32_vr_shl (dbg : bool) (w : Z) (self : list Z) (rhs : Z) : outcome (list Z) :=
+  I_Shl_ExpType_shl dbg w self rhs.
+
+Definition I_Shl_u32_rr_shl (dbg : bool) (w : Z) (self : list Z) (rhs : Z) : outcome (list Z) :=
+  I_Shl_ExpType_shl dbg w self rhs.
+
+Definition I_Shl_u32_rv_shl (dbg : bool) (w : Z) (self : list Z) (rhs : Z) : outcome (list Z) :=
+  I_Shl_ExpType_shl dbg w self rhs.
+
+Definition I_ShlAssign_u64_shl_assign (dbg : bool) (w : Z) (self : list Z) (rhs : Z) : outcome (list Z) :=
+  I_Shl_u64_shl dbg w self rhs.
+
+Definition I_ShlAssign_u64_ref_shl_assign (dbg : bool) (w : Z) (self : list Z) (rhs : Z) : outcome (list Z) :=
+  I_ShlAssign_u64_shl_assign dbg w self rhs.
+
+Definition I_Shl_u64_vr_shl (dbg : bool) (w : Z) (self : list Z) (rhs : Z) : outcome (list Z) :=
+  I_Shl_u64_shl dbg w self rhs.
+
+Definition I_Shl_u64_rr_shl (dbg : bool) (w : Z) (self : list Z) (rhs : Z) : outcome (list Z) :=
+  I_Shl_u64_shl dbg w self rhs.
+
+Definition I_Shl_u64_rv_shl (dbg : bool) (w : Z) (self : list Z) (rhs : Z) : outcome (list Z) :=
+  I_Shl_u64_shl dbg w self rhs.
+
+Definition I_ShlAssign_u128_shl_assign (dbg : bool) (w : Z) (self : list Z) (rhs : Z) : outcome (list Z) :=
+  I_Shl_u128_shl dbg w self rhs.
+
+Definition I_ShlAssign_u128_ref_shl_assign (dbg : bool) (w : Z) (self : list Z) (rhs : Z) : outcome (list Z) :=
+  I_ShlAssign_u128_shl_assign dbg w self rhs.
+
+Definition I_Shl_u128_vr_shl (dbg : bool) (w : Z) (self : list Z) (rhs : Z) : outcome (list Z) :=
+  I_Shl_u128_shl dbg w self rhs.
+
+Definition I_Shl_u128_rr_shl (dbg : bool) (w : Z) (self : list Z) (rhs : Z) : outcome (list Z) :=
+  I_Shl_u128_shl dbg w self rhs.
+
+Definition I_Shl_u128_rv_shl (dbg : bool) (w : Z) (self : list Z) (rhs : Z) : outcome (list Z) :=
+  I_Shl_u128_shl dbg w self rhs.
+
+Definition I_ShlAssign_usize_shl_assign (dbg : bool) (w : Z) (self : list Z) (rhs : Z) : outcome (list Z) :=
+  I_Shl_usize_shl dbg w self rhs.
+
+Definition I_ShlAssign_usize_ref_shl_assign (dbg : bool) (w : Z) (self : list Z) (rhs : Z) : outcome (list Z) :=
+  I_ShlAssign_usize_shl_assign dbg w self rhs.
+
+Definition I_Shl_usize_vr_shl (dbg : bool) (w : Z) (self : list Z) (rhs : Z) : outcome (list Z) :=
+  I_Shl_usize_shl dbg w self rhs.
+
+Definition I_Shl_usize_rr_shl (dbg : bool) (w : Z) (self : list Z) (rhs : Z) : outcome (list Z) :=
+  I_Shl_usize_shl dbg w self rhs.
+
+Definition I_Shl_usize_rv_shl (dbg : bool) (w : Z) (self : list Z) (rhs : Z) : outcome (list Z) :=
+  I_Shl_usize_shl dbg w self rhs.
+
+Definition I_ShlAssign_i8_shl_assign (dbg : bool) (w : Z) (self : list Z) (rhs : Z) : outcome (list Z) :=
+  I_Shl_i8_shl dbg w self rhs.
+
+Definition I_ShlAssign_i8_ref_shl_assign (dbg : bool) (w : Z) (self : list Z) (rhs : Z) : outcome (list Z) :=
+  I_ShlAssign_i8_shl_assign dbg w self rhs.
+
+Definition I_Shl_i8_vr_shl (dbg : bool) (w : Z) (self : list Z) (rhs : Z) : outcome (list Z) :=
+  I_Shl_i8_shl dbg w self rhs.
+
+Definition I_Shl_i8_rr_shl (dbg : bool) (w : Z) (self : list Z) (rhs : Z) : outcome (list Z) :=
+  I_Shl_i8_shl dbg w self rhs.
+
+Definition I_Shl_i8_rv_shl (dbg : bool) (w : Z) (self : list Z) (rhs : Z) : outcome (list Z) :=
+  I_Shl_i8_shl dbg w self rhs.
+
+Definition I_ShlAssign_i16_shl_assign (dbg : bool) (w : Z) (self : list Z) (rhs : Z) : outcome (list Z) :=
+  I_Shl_i16_shl dbg w self rhs.
+
+Definition I_ShlAssign_i16_ref_shl_assign (dbg : bool) (w : Z) (self : list Z) (rhs : Z) : outcome (list Z) :=
+  I_ShlAssign_i16_shl_assign dbg w self rhs.
+
+Definition I_Shl_i16_vr_shl (dbg : bool) (w : Z) (self : list Z) (rhs : Z) : outcome (list Z) :=
+  I_Shl_i16_shl dbg w self rhs.
+
+Definition I_Shl_i16_rr_shl (dbg : bool) (w : Z) (self : list Z) (rhs : Z) : outcome (list Z) :=
+  I_Shl_i16_shl dbg w self rhs.
+
+Definition I_Shl_i16_rv_shl (dbg : bool) (w : Z) (self : list Z) (rhs : Z) : outcome (list Z) :=
+  I_Shl_i16_shl dbg w self rhs.
+
+Definition I_ShlAssign_i32_shl_assign (dbg : bool) (w : Z) (self : list Z) (rhs : Z) : outcome (list Z) :=
+  I_Shl_i32_shl dbg w self rhs.
+
+Definition I_ShlAssign_i32_ref_shl_assign (dbg : bool) (w : Z) (self : list Z) (rhs : Z) : outcome (list Z) :=
+  I_ShlAssign_i32_shl_assign dbg w self rhs.
+
+Definition I_Shl_i32_vr_shl (dbg : bool) (w : Z) (self : list Z) (rhs : Z) : outcome (list Z) :=
+  I_Shl_i32_shl dbg w self rhs.
+
+Definition I_Shl_i32_rr_shl (dbg : bool) (w : Z) (self : list Z) (rhs : Z) : outcome (list Z) :=
+  I_Shl_i32_shl dbg w self rhs.
+
+Definition I_Shl_i32_rv_shl (dbg : bool) (w : Z) (self : list Z) (rhs : Z) : outcome (list Z) :=
+  I_Shl_i32_shl dbg w self rhs.
+
+Definition I_ShlAssign_i64_shl_assign (dbg : bool) (w : Z) (self : list Z) (rhs : Z) : outcome (list Z) :=
+  I_Shl_i64_shl dbg w self rhs.
+
+Definition I_ShlAssign_i64_ref_shl_assign (dbg : bool) (w : Z) (self : list Z) (rhs : Z) : outcome (list Z) :=
+  I_ShlAssign_i64_shl_assign dbg w self rhs.
+
+Definition I_Shl_i64_vr_shl (dbg : bool) (w : Z) (self : list Z) (rhs : Z) : outcome (list Z) :=
+  I_Shl_i64_shl dbg w self rhs.
+
+Definition I_Shl_i64_rr_shl (dbg : bool) (w : Z) (self : list Z) (rhs : Z) : outcome (list Z) :=
+  I_Shl_i64_shl dbg w self rhs.
+
+Definition I_Shl_i64_rv_shl (dbg : bool) (w : Z) (self : list Z) (rhs : Z) : outcome (list Z) :=
+  I_Shl_i64_shl dbg w self rhs.
+
+Definition I_ShlAssign_i128_shl_assign (dbg : bool) (w : Z) (self : list Z) (rhs : Z) : outcome (list Z) :=
+  I_Shl_i128_shl dbg w self rhs.
+
+Definition I_ShlAssign_i128_ref_shl_assign (dbg : bool) (w : Z) (self : list Z) (rhs : Z) : outcome (list Z) :=
+  I_ShlAssign_i128_shl_assign dbg w self rhs.
+
+Definition I_Shl_i128_vr_shl (dbg : bool) (w : Z) (self : list Z) (rhs : Z) : outcome (list Z) :=
+  I_Shl_i128_shl dbg w self rhs.
+
+Definition I_Shl_i128_rr_shl (dbg : bool) (w : Z) (self : list Z) (rhs : Z) : outcome (list Z) :=
+  I_Shl_i128_shl dbg w self rhs.
+
+Definition I_Shl_i128_rv_shl (dbg : bool) (w : Z) (self : list Z) (rhs : Z) : outcome (list Z) :=
+  I_Shl_i128_shl dbg w self rhs.
+
+Definition I_ShlAssign_isize_shl_assign (dbg : bool) (w : Z) (self : list Z) (rhs : Z) : outcome (list Z) :=
+  I_Shl_isize_shl dbg w self rhs.
+
+Definition I_ShlAssign_isize_ref_shl_assign (dbg : bool) (w : Z) (self : list Z) (rhs : Z) : outcome (list Z) :=
+  I_ShlAssign_isize_shl_assign dbg w self rhs.
+
+Definition I_Shl_isize_vr_shl (dbg : bool) (w : Z) (self : list Z) (rhs : Z) : outcome (list Z) :=
+  I_Shl_isize_shl dbg w self rhs.
+
+Definition I_Shl_isize_rr_shl (dbg : bool) (w : Z) (self : list Z) (rhs : Z) : outcome (list Z) :=
+  I_Shl_isize_shl dbg w self rhs.
+
+Definition I_Shl_isize_rv_shl (dbg : bool) (w : Z) (self : list Z) (rhs : Z) : outcome (list Z) :=
+  I_Shl_isize_shl dbg w self rhs.
+
+Definition I_ShrAssign_u8_shr_assign (dbg : bool) (w : Z) (self : list Z) (rhs : Z) : outcome (list Z) :=
+  I_Shr_u8_shr dbg w self rhs.
+
+Definition I_ShrAssign_u8_ref_shr_assign (dbg : bool) (w : Z) (self : list Z) (rhs : Z) : outcome (list Z) :=
+  I_ShrAssign_u8_shr_assign dbg w self rhs.
+
+Definition I_Shr_u8_vr_shr (dbg : bool) (w : Z) (self : list Z) (rhs : Z) : outcome (list Z) :=
+  I_Shr_u8_shr dbg w self rhs.
+
+Definition I_Shr_u8_rr_shr (dbg : bool) (w : Z) (self : list Z) (rhs : Z) : outcome (list Z) :=
+  I_Shr_u8_shr dbg w self rhs.
+
+Definition I_Shr_u8_rv_shr (dbg : bool) (w : Z) (self : list Z) (rhs : Z) : outcome (list Z) :=
+  I_Shr_u8_shr dbg w self rhs.
+
+Definition I_ShrAssign_u16_shr_assign (dbg : bool) (w : Z) (self : list Z) (rhs : Z) : outcome (list Z) :=
+  I_Shr_u16_shr dbg w self rhs.
+
+Definition I_ShrAssign_u16_ref_shr_assign (dbg : bool) (w : Z) (self : list Z) (rhs : Z) : outcome (list Z) :=
+  I_ShrAssign_u16_shr_assign dbg w self rhs.
+
+Definition I_Shr_u16_vr_shr (dbg : bool) (w : Z) (self : list Z) (rhs : Z) : outcome (list Z) :=
+  I_Shr_u16_shr dbg w self rhs.
+
+Definition I_Shr_u16_rr_shr (dbg : bool) (w : Z) (self : list Z) (rhs : Z) : outcome (list Z) :=
+  I_Shr_u16_shr dbg w self rhs.
+
+Definition I_Shr_u16_rv_shr (dbg : bool) (w : Z) (self : list Z) (rhs : Z) : outcome (list Z) :=
+  I_Shr_u16_shr dbg w self rhs.
+
+Definition I_ShrAssign_u32_shr_assign (dbg : bool) (w : Z) (self : list Z) (rhs : Z) : outcome (list Z) :=
+  I_Shr_ExpType_shr dbg w self rhs.
+
+Definition I_ShrAssign_u32_ref_shr_assign (dbg : bool) (w : Z) (self : list Z) (rhs : Z) : outcome (list Z) :=
+  I_ShrAssign_u32_shr_assign dbg w self rhs.
+
+Definition I_Shr_u32_vr_shr (dbg : bool) (w : Z) (self : list Z) (rhs : Z) : outcome (list Z) :=
+  I_Shr_ExpType_shr dbg w self rhs.
+
+Definition I_Shr_u32_rr_shr (dbg : bool) (w : Z) (self : list Z) (rhs : Z) : outcome (list Z) :=
+  I_Shr_ExpType_shr dbg w self rhs.
+
+Definition I_Shr_u32_rv_shr (dbg : bool) (w : Z) (self : list Z) (rhs : Z) : outcome (list Z) :=
+  I_Shr_ExpType_shr dbg w self rhs.
+
+Definition I_ShrAssign_u64_shr_assign (dbg : bool) (w : Z) (self : list Z) (rhs : Z) : outcome (list Z) :=
+  I_Shr_u64_shr dbg w self rhs.
+
+Definition I_ShrAssign_u64_ref_shr_assign (dbg : bool) (w : Z) (self : list Z) (rhs : Z) : outcome (list Z) :=
+  I_ShrAssign_u64_shr_assign dbg w self rhs.
+
+Definition I_Shr_u64_vr_shr (dbg : bool) (w : Z) (self : list Z) (rhs : Z) : outcome (list Z) :=
+  I_Shr_u64_shr dbg w self rhs.
+
+Definition I_Shr_u64_rr_shr (dbg : bool) (w : Z) (self : list Z) (rhs : Z) : outcome (list Z) :=
+  I_Shr_u64_shr dbg w self rhs.
+
+Definition I_Shr_u64_rv_shr (dbg : bool) (w : Z) (self : list Z) (rhs : Z) : outcome (list Z) :=
+  I_Shr_u64_shr dbg w self rhs.
+
+Definition I_ShrAssign_u128_shr_assign (dbg : bool) (w : Z) (self : list Z) (rhs : Z) : outcome (list Z) :=
+  I_Shr_u128_shr dbg w self rhs.
+
+Definition I_ShrAssign_u128_ref_shr_assign (dbg : bool) (w : Z) (self : list Z) (rhs : Z) : outcome (list Z) :=
+  I_ShrAssign_u128_shr_assign dbg w self rhs.
+
+Definition I_Shr_u128_vr_shr (dbg : bool) (w : Z) (self : list Z) (rhs : Z) : outcome (list Z) :=
+  I_Shr_u128_shr dbg w self rhs.
+
+Definition I_Shr_u128_rr_shr (dbg : bool) (w : Z) (self : list Z) (rhs : Z) : outcome (list Z) :=
+  I_Shr_u128_shr dbg w self rhs.
+
+Definition I_Shr_u128_rv_shr (dbg : bool) (w : Z) (self : list Z) (rhs : Z) : outcome (list Z) :=
+  I_Shr_u128_shr dbg w self rhs.
+
+Definition I_ShrAssign_usize_shr_assign (dbg : bool) (w : Z) (self : list Z) (rhs : Z) : outcome (list Z) :=
+  I_Shr_usize_shr dbg w self rhs.
+
+Definition I_ShrAssign_usize_ref_shr_assign (dbg : bool) (w : Z) (self : list Z) (rhs : Z) : outcome (list Z) :=
+  I_ShrAssign_usize_shr_assign dbg w self rhs.
+
+Definition I_Shr_usize_vr_shr (dbg : bool) (w : Z) (self : list Z) (rhs : Z) : outcome (list Z) :=
+  I_Shr_usize_shr dbg w self rhs.
+
+Definition I_Shr_usize_rr_shr (dbg : bool) (w : Z) (self : list Z) (rhs : Z) : outcome (list Z) :=
+  I_Shr_usize_shr dbg w self rhs.
+
+Definition I_Shr_usize_rv_shr (dbg : bool) (w : Z) (self : list Z) (rhs : Z) : outcome (list Z) :=
+  I_Shr_usize_shr dbg w self rhs.
+
+Definition I_ShrAssign_i8_shr_assign (dbg : bool) (w : Z) (self : list Z) (rhs : Z) : outcome (list Z) :=
+  I_Shr_i8_shr dbg w self rhs.
+
+Definition I_ShrAssign_i8_ref_shr_assign (dbg : bool) (w : Z) (self : list Z) (rhs : Z) : outcome (list Z) :=
+  I_ShrAssign_i8_shr_assign dbg w self rhs.
+
+Definition I_Shr_i8_vr_shr (dbg : bool) (w : Z) (self : list Z) (rhs : Z) : outcome (list Z) :=
+  I_Shr_i8_shr dbg w self rhs.
+
+Definition I_Shr_i8_rr_shr (dbg : bool) (w : Z) (self : list Z) (rhs : Z) : outcome (list Z) :=
+  I_Shr_i8_shr dbg w self rhs.
+
+Definition I_Shr_i8_rv_shr (dbg : bool) (w : Z) (self : list Z) (rhs : Z) : outcome (list Z) :=
+  I_Shr_i8_shr dbg w self rhs.
+
+Definition I_ShrAssign_i16_shr_assign (dbg : bool) (w : Z) (self : list Z) (rhs : Z) : outcome (list Z) :=
+  I_Shr_i16_shr dbg w self rhs.
+
+Definition I_ShrAssign_i16_ref_shr_assign (dbg : bool) (w : Z) (self : list Z) (rhs : Z) : outcome (list Z) :=
+  I_ShrAssign_i16_shr_assign dbg w self rhs.
+
+Definition I_Shr_i16_vr_shr (dbg : bool) (w : Z) (self : list Z) (rhs : Z) : outcome (list Z) :=
+  I_Shr_i16_shr dbg w self rhs.
+
+Definition I_Shr_i16_rr_shr (dbg : bool) (w : Z) (self : list Z) (rhs : Z) : outcome (list Z) :=
+  I_Shr_i16_shr dbg w self rhs.
+
+Definition I_Shr_i16_rv_shr (dbg : bool) (w : Z) (self : list Z) (rhs : Z) : outcome (list Z) :=
+  I_Shr_i16_shr dbg w self rhs.
+
+Definition I_ShrAssign_i32_shr_assign (dbg : bool) (w : Z) (self : list Z) (rhs : Z) : outcome (list Z) :=
+  I_Shr_i32_shr dbg w self rhs.
+
+Definition I_ShrAssign_i32_ref_shr_assign (dbg : bool) (w : Z) (self : list Z) (rhs : Z) : outcome (list Z) :=
+  I_ShrAssign_i32_shr_assign dbg w self rhs.
+
+Definition I_Shr_i32_vr_shr (dbg : bool) (w : Z) (self : list Z) (rhs : Z) : outcome (list Z) :=
+  I_Shr_i32_shr dbg w self rhs.
+
+Definition I_Shr_i32_rr_shr (dbg : bool) (w : Z) (self : list Z) (rhs : Z) : outcome (list Z) :=
+  I_Shr_i32_shr dbg w self rhs.
+
+Definition I_Shr_i32_rv_shr (dbg : bool) (w : Z) (self : list Z) (rhs : Z) : outcome (list Z) :=
+  I_Shr_i32_shr dbg w self rhs.
+
+Definition I_ShrAssign_i64_shr_assign (dbg : bool) (w : Z) (self : list Z) (rhs : Z) : outcome (list Z) :=
+  I_Shr_i64_shr dbg w self rhs.
+
+Definition I_ShrAssign_i64_ref_shr_assign (dbg : bool) (w : Z) (self : list Z) (rhs : Z) : outcome (list Z) :=
+  I_ShrAssign_i64_shr_assign dbg w self rhs.
+
+Definition I_Shr_i64_vr_shr (dbg : bool) (w : Z) (self : list Z) (rhs : Z) : outcome (list Z) :=
+  I_Shr_i64_shr dbg w self rhs.
+
+Definition I_Shr_i64_rr_shr (dbg : bool) (w : Z) (self : list Z) (rhs : Z) : outcome (list Z) :=
+  I_Shr_i64_shr dbg w self rhs.
+
+Definition I_Shr_i64_rv_shr (dbg : bool) (w : Z) (self : list Z) (rhs : Z) : outcome (list Z) :=
+  I_Shr_i64_shr dbg w self rhs.
+
+Definition I_ShrAssign_i128_shr_assign (dbg : bool) (w : Z) (self : list Z) (rhs : Z) : outcome (list Z) :=
+  I_Shr_i128_shr dbg w self rhs.
+
+Definition I_ShrAssign_i128_ref_shr_assign (dbg : bool) (w : Z) (self : list Z) (rhs : Z) : outcome (list Z) :=
+  I_ShrAssign_i128_shr_assign dbg w self rhs.
+
+Definition I_Shr_i128_vr_shr (dbg : bool) (w : Z) (self : list Z) (rhs : Z) : outcome (list Z) :=
+  I_Shr_i128_shr dbg w self rhs.
+
+Definition I_Shr_i128_rr_shr (dbg : bool) (w : Z) (self : list Z) (rhs : Z) : outcome (list Z) :=
+  I_Shr_i128_shr dbg w self rhs.
+
+Definition I_Shr_i128_rv_shr (dbg : bool) (w : Z) (self : list Z) (rhs : Z) : outcome (list Z) :=
+  I_Shr_i128_shr dbg w self rhs.
+
+Definition I_ShrAssign_isize_shr_assign (dbg : bool) (w : Z) (self : list Z) (rhs : Z) : outcome (list Z) :=
+  I_Shr_isize_shr dbg w self rhs.
+
+Definition I_ShrAssign_isize_ref_shr_assign (dbg : bool) (w : Z) (self : list Z) (rhs : Z) : outcome (list Z) :=
+  I_ShrAssign_isize_shr_assign dbg w self rhs.
+
+Definition I_Shr_isize_vr_shr (dbg : bool) (w : Z) (self : list Z) (rhs : Z) : outcome (list Z) :=
+  I_Shr_isize_shr dbg w self rhs.
+
+Definition I_Shr_isize_rr_shr (dbg : bool) (w : Z) (self : list Z) (rhs : Z) : outcome (list Z) :=
+  I_Shr_isize_shr dbg w self rhs.
+
+Definition I_Shr_isize_rv_shr (dbg : bool) (w : Z) (self : list Z) (rhs : Z) : outcome (list Z) :=
+  I_Shr_isize_shr dbg w self rhs.
+
+Definition I_SubAssign_sub_assign (dbg : bool) (w : Z) (self : list Z) (rhs : list Z) : outcome (list Z) :=
+  I_Sub_sub dbg w self rhs.
+
+Definition I_SubAssign_ref_sub_assign (dbg : bool) (w : Z) (self : list Z) (rhs : list Z) : outcome (list Z) :=
+  I_SubAssign_sub_assign dbg w self rhs.
+
+Definition I_Sub_vr_sub (dbg : bool) (w : Z) (self : list Z) (rhs : list Z) : outcome (list Z) :=
+  I_Sub_sub dbg w self rhs.
+
+Definition I_Sub_rr_sub (dbg : bool) (w : Z) (self : list Z) (rhs : list Z) : outcome (list Z) :=
+  I_Sub_sub dbg w self rhs.
+
+Definition I_Sub_rv_sub (dbg : bool) (w : Z) (self : list Z) (rhs : list Z) : outcome (list Z) :=
+  I_Sub_sub dbg w self rhs.
+
+(* ---- src/buint/mod.rs (macro mod_impl), second pass ---- *)
+Definition U_Default_default (w : Z) (n : nat) : list Z :=
+  Core.ZERO n.
+
+Definition U_Product_product (dbg : bool) (w : Z) (n : nat) (iter : list (list Z)) : outcome (list Z) :=
+  Ops.fold_out (fun a b => (U_Mul_mul dbg w a b)) iter (Core.ONE n).
+
+Definition U_Product_ref_product (dbg : bool) (w : Z) (n : nat) (iter : list (list Z)) : outcome (list Z) :=
+  Ops.fold_out (fun a b => (U_Mul_vr_mul dbg w a b)) iter (Core.ONE n).
+
+Definition U_Sum_sum (dbg : bool) (w : Z) (n : nat) (iter : list (list Z)) : outcome (list Z) :=
+  Ops.fold_out (fun a b => (U_Add_add dbg w a b)) iter (Core.ZERO n).
+
+Definition U_Sum_ref_sum (dbg : bool) (w : Z) (n : nat) (iter : list (list Z)) : outcome (list Z) :=
+  Ops.fold_out (fun a b => (U_Add_vr_add dbg w a b)) iter (Core.ZERO n).
+
+(* ---- src/bint/mod.rs (macro mod_impl), second pass ---- *)
+Definition I_Default_default (w : Z) (n : nat) : list Z :=
+  Core.ZERO n.
+
+Definition I_Product_product (dbg : bool) (w : Z) (n : nat) (iter : list (list Z)) : outcome (list Z) :=
+  Ops.fold_out (fun a b => (I_Mul_mul dbg w a b)) iter (Core.ONE n).
+
+Definition I_Product_ref_product (dbg : bool) (w : Z) (n : nat) (iter : list (list Z)) : outcome (list Z) :=
+  Ops.fold_out (fun a b => (I_Mul_vr_mul dbg w a b)) iter (Core.ONE n).
+
+Definition I_Sum_sum (dbg : bool) (w : Z) (n : nat) (iter : list (list Z)) : outcome (list Z) :=
+  Ops.fold_out (fun a b => (I_Add_add dbg w a b)) iter (Core.ZERO n).
+
+Definition I_Sum_ref_sum (dbg : bool) (w : Z) (n : nat) (iter : list (list Z)) : outcome (list Z) :=
+  Ops.fold_out (fun a b => (I_Add_vr_add dbg w a b)) iter (Core.ZERO n).
 
 End Glue.
